@@ -14,7 +14,7 @@
 
 use crate::ctx::{finish, run_streams, Local, Opts, Report, Stream};
 use crate::json::J;
-use crate::mon::{c01, c02, c04, c06, c08, common, objops};
+use crate::mon::{c01, c02, c03, c04, c05, c06, c08, c12, c16, c17, common, objops};
 use crate::oracle::model::HV;
 use crate::rng::Rng;
 use crate::types::HashLike;
@@ -134,6 +134,15 @@ pub fn run(o: &Opts) -> i32 {
         c06::check_c06(l, &v, rng);
         c06::check_c07(l, &v, rng);
         l.nt(0x2000 + i);
+    }));
+
+    // (2b) the formatter contract (C05's monitor: store_into_bytes into exactly sized heap buffers of
+    // every length, Display, to_string, String::from, len_in_str, parse back)
+    streams.push(Stream::new("shaped-format", pairs.len() as u64, move |i, _rng: &mut Rng, l: &mut Local| {
+        let (a, b) = pairs_ref[i as usize];
+        let v = hv([30u8, 0, 17, 29, 7, 1][(i as usize) % 6], a, b, 64, i as u8 ^ 0x33);
+        c05::check_value(l, &v);
+        l.nt(0x2800 + i);
     }));
 
     // (3) comparison through every entry point and every combination of forms (C02's monitor)
@@ -273,6 +282,26 @@ pub fn run(o: &Opts) -> i32 {
         l.nt(0x5000 + i);
     }));
 
+    // (5b) reused comparison targets / position arrays (C17's monitors) and equality / hashing /
+    // ordering over pools of closely related values of each type (C16's monitor)
+    streams.push(Stream::new("reuse-and-ordering", 24, move |i, rng: &mut Rng, l: &mut Local| {
+        match i % 4 {
+            0 => c17::check_target_seq(l, rng),
+            1 => c17::check_array_seq(l, rng),
+            2 => {
+                c16::check_type::<ssdeep::FuzzyHash>(l, rng);
+                c16::check_type::<ssdeep::LongRawFuzzyHash>(l, rng);
+                c16::check_type::<ssdeep::DualFuzzyHash>(l, rng);
+            }
+            _ => {
+                c16::check_type::<ssdeep::RawFuzzyHash>(l, rng);
+                c16::check_type::<ssdeep::LongFuzzyHash>(l, rng);
+                c16::check_type::<ssdeep::LongDualFuzzyHash>(l, rng);
+            }
+        }
+        l.nt(0x5800 + i);
+    }));
+
     // (6) generator: pieces ending at one chosen level 62 / 63 / 64 / 70 times, alone and after data
     let levels: [usize; 6] = [0, 1, 2, 28, 29, 30];
     let counts: [usize; 4] = [62, 63, 64, 70];
@@ -295,13 +324,43 @@ pub fn run(o: &Opts) -> i32 {
         l.nt(0x6000 + i);
     }));
 
+    // (7) generator histories on small payloads that still see forks, eliminations and full
+    // contexts (trigger words of the lowest levels every few bytes): chunked delivery through all
+    // forms, copies by clone / clone_from, intermediate finalizations (C03's monitor), and
+    // declaration / reset histories (C12's monitor); with the hook, histories that start after a
+    // multi-GiB zero prefix so that the contexts of the largest block sizes are the live ones
+    streams.push(Stream::new("generator-histories", 30, move |i, rng: &mut Rng, l: &mut Local| {
+        match i % 3 {
+            0 => {
+                let mut d: Vec<u8> = Vec::new();
+                let n = 150 + (i as usize % 5) * 90;
+                while d.len() < n {
+                    let lv = [0usize, 0, 1, 1, 2, 3, 4][rng.usize_below(7)];
+                    d.extend_from_slice(&wref[lv][rng.usize_below(wref[lv].len())]);
+                    for _ in 0..rng.urange(0, 5) {
+                        d.push(rng.byte());
+                    }
+                }
+                c03::check_payload(l, rng, &d, false, 2);
+            }
+            1 => c12::history(l, rng, wref),
+            _ => {
+                #[cfg(a4lg_ffuzzy_verif)]
+                c03::large_offset_case(l, rng, wref, i);
+                #[cfg(not(a4lg_ffuzzy_verif))]
+                c12::history(l, rng, wref);
+            }
+        }
+        l.nt(0x7000 + i);
+    }));
+
     let mut rr = run_streams(o, streams);
     rr.local.inconclusive.extend(pre_inconclusive);
     finish(
         o,
         rr,
         Report {
-            rule: format!("shaped plan for the undefined-behaviour detectors: {} block-hash shapes (lengths 0/1/6/7/8/capacity-1/capacity, runs ending at the end, completely filled RLE blocks, extreme symbols) paired on the diagonal and by one permutation (thorough: all pairs); texts through all parsers, normalization/dual monitors, comparison through every entry point and combination of forms for six block-size relations (plus pairs where one side only fits the long type and the other is stored in the short type), constructors fed from exactly sized heap slices, position arrays for all pairs of ten boundary lengths with strings related by their ends (exactly sized heap slices), every object operation in windows of eight, generator inputs with 62/63/64/70 piece ends at six levels. Every case runs the per-case monitor of its property, so results are still compared with the oracles. Non-trivial = every planned case.", N_SHAPES),
+            rule: format!("shaped plan for the undefined-behaviour detectors: {} block-hash shapes (lengths 0/1/6/7/8/capacity-1/capacity, runs ending at the end, completely filled RLE blocks, extreme symbols) paired on the diagonal and by one permutation (thorough: all pairs); texts through all parsers, the formatter contract, normalization/dual monitors, comparison through every entry point and combination of forms for six block-size relations (plus pairs where one side only fits the long type and the other is stored in the short type), constructors fed from exactly sized heap slices, position arrays for all pairs of ten boundary lengths with strings related by their ends (exactly sized heap slices), every object operation in windows of eight, reused targets / arrays and equality-ordering pools, generator inputs with 62/63/64/70 piece ends at six levels, thirty generator histories (chunked delivery, clone / clone_from, declarations, reset; a third of them after a multi-GiB zero prefix through the hook). Every case runs the per-case monitor of its property, so results are still compared with the oracles. Non-trivial = every planned case.", N_SHAPES),
             assumptions: vec![],
             exhaustive: false,
             min_nontrivial: 1,
